@@ -6,6 +6,8 @@ import OmbottModel.Lemmas.RouterResolve
 import OmbottModel.Lemmas.RouterParse
 import OmbottModel.Lemmas.RouterPrint
 import OmbottModel.Lemmas.RouterSound
+import OmbottModel.Model.RouterBuiltin
+import OmbottModel.Gen.Routerbuiltin
 /-!
 C01 — Route resolution equals the plain rule-by-rule semantics.
 Property theorems only; helper lemmas live in `Lemmas/Router*.lean`.
@@ -271,6 +273,25 @@ theorem handler_called_only_on_match (upper : Str → Str) (ops : List Op) (hok 
         have hv : v ∈ vals := (List.of_mem_zip (makeParamsDict_mem hkv).1).2
         obtain ⟨f, s, r', h1, h2, h3, h4⟩ := hms.vals v hv
         exact ⟨f, s, r', by rw [hps]; exact h1, h2, h3, h4⟩
+
+/-- **Built-in filters, mask texts.**  The regular expressions `FilterFactory.filters` builds for
+`int`, `float` and `path` (for the probed configurations, regex metacharacters in the following
+literal included) are the documented ones: `path` looks ahead for the following literal text
+escaped, i.e. taken literally.  Regenerated from the live module on every run. -/
+theorem builtin_masks_pinned :
+    (Gen.builtinMasks.all fun m =>
+      Builtin.expectedMask m.1.toList m.2.1.toList == m.2.2.toList) = true := by
+  decide +kernel
+
+/-- **Built-in filters, behaviour.**  On the probe table taken from the live handlers on every
+run (signs, leading zeros, exponent-like text, decoy occurrences of the literal after a `path`
+wildcard, literals made of regex metacharacters) the handlers of `int`, `float`, `path` answer
+exactly what the reference semantics `Builtin.builtin` says: value and characters consumed. -/
+theorem builtin_probes_agree :
+    (Gen.builtinProbes.all fun p =>
+      Builtin.builtin p.1.toList p.2.1.toList p.2.2.1.toList ==
+        p.2.2.2.map fun r => (r.1.toList, r.2)) = true := by
+  decide +kernel
 
 /-- "not found" is answered exactly when the tree lookup finds no route -/
 theorem resolve_notFound_iff_miss (env : FilterEnv) (R : Router) (path : Str) (ms : List Str) :
